@@ -452,6 +452,39 @@ impl<'a> GeneratorState<'a> {
         }
     }
 
+    /// An expression that is folded into a whole constant: literals, constants defined by a
+    /// value, sizeof, and the operators applied to such operands
+    fn is_folded_constant(&self, expr: &Expr) -> bool {
+        match expr {
+            Expr::Integer(_) | Expr::Sizeof(_) => true,
+            Expr::Identifier(var, sub) => {
+                matches!(**sub, Expr::Nothing)
+                    && self.compiler_state.variables.get(var.as_str()).map_or(false, |v| {
+                        matches!(v.def, VariableDefinition::Value(VariableValue::Int(_)))
+                    })
+            }
+            Expr::Neg(v) | Expr::Not(v) | Expr::BNot(v) => self.is_folded_constant(v),
+            Expr::BinOp { lhs, op, rhs } => {
+                !matches!(
+                    op,
+                    Operation::Assign
+                        | Operation::Comma
+                        | Operation::Mul(true)
+                        | Operation::Div(true)
+                        | Operation::Add(true)
+                        | Operation::Sub(true)
+                        | Operation::And(true)
+                        | Operation::Or(true)
+                        | Operation::Xor(true)
+                        | Operation::Brs(true)
+                        | Operation::Bls(true)
+                ) && self.is_folded_constant(lhs)
+                    && self.is_folded_constant(rhs)
+            }
+            _ => false,
+        }
+    }
+
     fn generate_sizeof(&mut self, expr: &Expr, pos: usize) -> Result<ExprType, Error> {
         match expr {
             Expr::Type(s) => {
@@ -726,7 +759,8 @@ impl<'a> GeneratorState<'a> {
                     }
                     ret
                 }
-                // The high byte of a truth value is 0 (its operands were evaluated for the low byte)
+                // The high byte of a truth value is 0 (its operands were evaluated for the low byte).
+                // A constant truth value stays a whole constant: its bytes are taken later
                 Operation::Eq
                 | Operation::Neq
                 | Operation::Gt
@@ -735,7 +769,7 @@ impl<'a> GeneratorState<'a> {
                 | Operation::Lte
                 | Operation::Land
                 | Operation::Lor
-                    if high_byte =>
+                    if high_byte && !self.is_folded_constant(expr) =>
                 {
                     Ok(ExprType::Immediate(0))
                 }
@@ -1013,7 +1047,7 @@ impl<'a> GeneratorState<'a> {
             Expr::Neg(v) => self.generate_neg(v, pos, high_byte),
             // The high byte of a truth value is 0 (its operand was evaluated for the low byte).
             // The negation of a constant stays a whole constant: its bytes are taken later
-            Expr::Not(v) if high_byte && !matches!(**v, Expr::Integer(_)) => {
+            Expr::Not(v) if high_byte && !self.is_folded_constant(v) => {
                 Ok(ExprType::Immediate(0))
             }
             Expr::Not(v) => self.generate_not(v, pos),
